@@ -25,7 +25,8 @@ API_WORDS = ["user_id", "created_at", "updatedAt", "firstName", "last_name", "em
              "properties", "version", "revision", "checksum", "size", "width", "height", "depth", "weight",
              "color", "colour", "shape", "tagsList", "series", "matrix", "indices", "statuses", "addresses",
              "people", "children", "mice", "geese", "news", "analysis", "analyses", "DriverStandings",
-             "MRData", "HTTPResponse", "userID", "XMLData", "x1y", "v2", "ipv4Address", "sha256", "utf8Text"]
+             "MRData", "HTTPResponse", "userID", "XMLData", "x1y", "v2", "ipv4Address", "sha256", "utf8Text",
+             "Root", "Item", "Owner", "Node", "Tag", "Child", "Datum", "User"]
 
 KEYWORDS = list(keyword.kwlist)
 BUILTIN_NAMES = ["list", "type", "id", "str", "int", "float", "bool", "dict", "set", "object", "None", "True",
@@ -42,7 +43,7 @@ SQL_SPECIAL = ["id", "pk", "ID", "Pk"]
 PUNCT_KEYS = ["q r", "foo-bar", "a.b", "it's", 'say "hi"', "back\\slash", "path/to", "$ref", "@type", "x y z",
               "first name", "e-mail", "content-type", "X-Request-Id", "a\"b", "c\\d", "tab\there", "per cent%",
               "{curly}", "[square]", "semi;colon", "co:lon", "qu?estion", "ex!clam", "a+b", "a=b", "hash#tag",
-              "new\nline", "pipe|d", "til~de", "back`tick", "ca^ret", "am&p", "st*ar", "(paren)", "a,b", "<tag>"]
+              "new\nline", " padded ", "trail ", " lead", "pipe|d", "til~de", "back`tick", "ca^ret", "am&p", "st*ar", "(paren)", "a,b", "<tag>"]
 NONASCII_KEYS = ["é", "ü", "ñame", "straße", "øre", "Æther", "café", "naïve", "Ключ", "значение", "имя",
                  "Ελληνικά", "όνομα", "Հայերեն", "ÀÉÎ", "łódź", "čeština", "šđžć", "ärger", "Größe",
                  "données", "año", "fianç", "Über", "пользователь", "список", "αβγ", "Ωmega"]
@@ -95,6 +96,24 @@ def key_status(key, unicode_both=True, allow_digit_first=False):
     return None
 
 
+def class_forms(key):
+    """(name before sanitising, sanitised forms) of the class derived from a key holding an object"""
+    raw = inflection.camelize(inflection.singularize(inflection.underscore(key)))
+    clean = {re.sub(r"\W", "", unidecode(raw)).lower(), re.sub(r"\W", "", raw).lower()}
+    return raw, clean
+
+
+def class_name_collision(keys):
+    """finding class-name-collision-after-sanitising: two keys whose class names differ when duplicates are
+    resolved (before sanitising) but are equal afterwards"""
+    forms = [class_forms(k) for k in keys]
+    for i in range(len(forms)):
+        for j in range(i + 1, len(forms)):
+            if forms[i][0] != forms[j][0] and forms[i][1] & forms[j][1]:
+                return True
+    return False
+
+
 def key_universe(pools, min_size=1, max_size=8, allow_digit_first=False):
     """Lists of keys, pairwise fold-distinct, all in the stated domain.  Returns strategy of list[str]."""
     pool = []
@@ -106,7 +125,8 @@ def key_universe(pools, min_size=1, max_size=8, allow_digit_first=False):
             seen.add(k)
             if key_status(k, allow_digit_first=allow_digit_first) is None:
                 pool.append(k)
-    return st.lists(st.sampled_from(pool), min_size=min_size, max_size=max_size, unique_by=fold)
+    return st.lists(st.sampled_from(pool), min_size=min_size, max_size=max_size, unique_by=fold).filter(
+        lambda ks: not class_name_collision(ks))
 
 
 def excluded_counts(pools, allow_digit_first=False):
